@@ -197,6 +197,7 @@ class UnionUnpackerBuilder(AbstractUnpackerBuilder):
             unpacker_block = CodeLines()
             if isinstance(unpacker, TypeMatchEligibleExpression):
                 do_try = False
+                spec.builder.ensure_object_imported(type_arg)
                 if type_match_statements > 1:
                     condition = f"__value_type is {type_arg.__name__}"
                 else:
